@@ -589,9 +589,24 @@ func ite(c, a, b Term) Term {
 	return fmt.Sprintf("(ite %s %s %s)", c, a, b)
 }
 
+func isNumeral(t Term) bool {
+	if t == "" {
+		return false
+	}
+	for _, c := range t {
+		if c < '0' || c > '9' {
+			return false
+		}
+	}
+	return true
+}
+
 func eq(a, b Term) Term {
 	if a == b {
 		return "true"
+	}
+	if isNumeral(a) && isNumeral(b) {
+		return "false"
 	}
 	return fmt.Sprintf("(= %s %s)", a, b)
 }
